@@ -364,6 +364,7 @@ func cmdCheck(args []string) {
 				cfg.Deadline = time.Now().Add(time.Duration(budget) * time.Second)
 				cfg.Stop = &stopFlag
 				cfg.PtrChoice = h.PtrChoice
+				cfg.SplitDims = ts.Split
 				cfg.LazyFeas = false
 				if h.MergeMaxOutcomes > 0 {
 					cfg.MergeMaxOutcomes = h.MergeMaxOutcomes
